@@ -75,6 +75,8 @@ def apa_leads(ck, results):
     leads = []
     for inv, res in results:
         ck.add_symbolic('w=32 %s (all inputs)' % inv, res)
+        if res.status == 'inconclusive':
+            ck.note('Apalache w=32 %s inconclusive after %.0fs (time budget or tool error); not a verdict' % (inv, res.wall))
         if res.status == 'violated' and res.cex:
             c = res.cex
             ck.note('model-level lead: Apalache w=32 %s counterexample %s' % (inv, {k: c.get(k) for k in ('a', 'b', 't0', 't1', 't2', 't3')}))
